@@ -3,6 +3,8 @@ package props
 import (
 	"bytes"
 	"crypto/rand"
+	"encoding/base64"
+	"encoding/hex"
 	"fmt"
 	"io"
 	"sync"
@@ -113,6 +115,17 @@ func c19BadKeys(tier string) map[string][]byte {
 		"nil": nil, "empty": {}, "16-bytes": bytes.Repeat([]byte{1}, 16), "31-bytes": bytes.Repeat([]byte{1}, 31),
 		"33-bytes": bytes.Repeat([]byte{1}, 33), "64-bytes": bytes.Repeat([]byte{1}, 64), "all-zero": make([]byte, 32),
 	}
+	// text forms of a 32-byte key and near misses of the right key: a key is 32 raw bytes, nothing else
+	r["base64std-text-of-the-key"] = []byte(base64.StdEncoding.EncodeToString(c19Key))
+	r["base64url-text-of-the-key"] = []byte(base64.URLEncoding.EncodeToString(c19Key))
+	r["base64raw-text-of-the-key"] = []byte(base64.RawStdEncoding.EncodeToString(c19Key))
+	r["base64std-text-of-the-zero-key"] = []byte(base64.StdEncoding.EncodeToString(make([]byte, 32)))
+	r["hex-text-of-the-key"] = []byte(hex.EncodeToString(c19Key))
+	r["the-key-plus-NUL"] = append(append([]byte{}, c19Key...), 0)
+	r["the-key-plus-newline"] = append(append([]byte{}, c19Key...), '\n')
+	r["the-key-twice"] = append(append([]byte{}, c19Key...), c19Key...)
+	r["first-31-bytes-of-the-key"] = append([]byte{}, c19Key[:31]...)
+	r["NUL-plus-the-key"] = append([]byte{0}, c19Key...)
 	return r
 }
 
@@ -641,7 +654,7 @@ func c19TokenSub() *engine.Sub {
 	return &engine.Sub{
 		Name:   "through-tokens",
 		Serial: true,
-		Rule:   "encrypted metadata added through delegation / invocation options, sealed (DAG-CBOR) or encoded (DAG-JSON) and decoded again: the same key returns the plaintext, a different key fails, the plaintext (len>=16) does not occur in the sealed bytes; non-trivial = all",
+		Rule:   "encrypted metadata added through delegation / invocation options, sealed (DAG-CBOR) or encoded (DAG-JSON) and decoded again: the same key returns the plaintext, a different key fails, the plaintext (len>=16) does not occur in the sealed bytes; four more tokens built with the same pinned token nonce, metadata key, encryption key and plaintext (the nonce option before / after the metadata option) all store different ciphertexts; non-trivial = all",
 		Bound:  func(string) string { return "2 kinds x 2 codecs x 6 lengths x {string, bytes}" },
 		Gen: func(tier string, emit func(any) bool) {
 			for _, kind := range []string{"dlg", "inv"} {
@@ -733,6 +746,48 @@ func c19TokenSub() *engine.Sub {
 				}
 				if _, err := ro.GetEncryptedBytes("secret", bytes.Repeat([]byte{0xff}, 32)); err == nil {
 					ctx.Failf(cs, "token/wrong-key-returns-data", "a different key decrypts metadata of an unsealed token")
+				}
+				// the same token built again - same issuer, same pinned token nonce, same metadata key, same encryption
+				// key, same plaintext; options in either order - stores another ciphertext every time
+				seen := map[string]string{}
+				for _, order := range []string{"nonce-first", "meta-first", "nonce-first", "meta-first"} {
+					var stored []byte
+					var berr error
+					if cs.Kind == "dlg" {
+						opts := []delegation.Option{delegation.WithNonce(fixedNonce), delegation.WithEncryptedMetaBytes("secret", pt, c19Key)}
+						if cs.AsStr {
+							opts[1] = delegation.WithEncryptedMetaString("secret", string(pt), c19Key)
+						}
+						if order == "meta-first" {
+							opts[0], opts[1] = opts[1], opts[0]
+						}
+						var t *delegation.Token
+						if t, berr = delegation.New(k.DID, otherPrincipal(k, 1), "/a", nil, opts...); berr == nil {
+							stored, berr = t.Meta().GetBytes("secret")
+						}
+					} else {
+						opts := []invocation.Option{invocation.WithNonce(fixedNonce), invocation.WithEncryptedMetaBytes("secret", pt, c19Key)}
+						if cs.AsStr {
+							opts[1] = invocation.WithEncryptedMetaString("secret", string(pt), c19Key)
+						}
+						if order == "meta-first" {
+							opts[0], opts[1] = opts[1], opts[0]
+						}
+						var t *invocation.Token
+						if t, berr = invocation.New(k.DID, otherPrincipal(k, 1), "/a", []cid.Cid{cidPool[0]}, opts...); berr == nil {
+							stored, berr = t.Meta().GetBytes("secret")
+						}
+					}
+					ctx.Eval(1)
+					if berr != nil {
+						ctx.Failf(cs, "token/constructor-fails", "constructor with encrypted metadata (%s) fails: %v", order, berr)
+						return
+					}
+					if prev, dup := seen[string(stored)]; dup {
+						ctx.Failf(cs, "token/same-ciphertext-twice", "two tokens built with the same pinned nonce, metadata key, encryption key and plaintext (options %s, then %s) store the same ciphertext", prev, order)
+						return
+					}
+					seen[string(stored)] = order
 				}
 			})
 		},
